@@ -62,6 +62,44 @@ struct CaseCfg {
     max_bytes: u64,
     max_cycles: u64,
     defaults: bool,
+    /// consensus id: selects `rfc0044_active_epoch` (`"ckb"` / `"ckb_testnet"`: the hard-coded
+    /// epochs of the public chains; anything else: 0)
+    chain: &'static str,
+    /// epoch number of the genesis epoch (header field and `genesis_epoch_ext`): a history that
+    /// starts `k` epochs below the activation epoch crosses the boundary within a few blocks
+    genesis_epoch: u64,
+}
+
+fn act_epoch_of(chain: &str) -> u64 {
+    match chain {
+        "ckb" => ckb_constant::softfork::mainnet::RFC0044_ACTIVE_EPOCH,
+        "ckb_testnet" => ckb_constant::softfork::testnet::RFC0044_ACTIVE_EPOCH,
+        _ => 0,
+    }
+}
+
+/// the three activation regimes of a case (round 6)
+fn with_regime(mut cc: CaseCfg, regime: u64) -> CaseCfg {
+    match regime {
+        // never active within the case: the early history of a public chain
+        1 => {
+            cc.chain = "ckb";
+            cc.genesis_epoch = 0;
+        }
+        // the history crosses the activation boundary: starts one or two epochs below it
+        2 | 3 => {
+            let (id, e) = if regime == 2 {
+                ("ckb_testnet", ckb_constant::softfork::testnet::RFC0044_ACTIVE_EPOCH)
+            } else {
+                ("ckb", ckb_constant::softfork::mainnet::RFC0044_ACTIVE_EPOCH)
+            };
+            cc.chain = id;
+            cc.genesis_epoch = e - 1 - (cc.epoch_len % 2);
+        }
+        // active from epoch 0 (every other consensus id)
+        _ => {}
+    }
+    cc
 }
 
 fn consensus_for(cc: &CaseCfg, genesis_cells: u64) -> Consensus {
@@ -82,15 +120,30 @@ fn consensus_for(cc: &CaseCfg, genesis_cells: u64) -> Consensus {
     let genesis_block = BlockBuilder::default()
         .dao(dao)
         .compact_target(DIFF_TWO)
-        .epoch(EpochNumberWithFraction::new_unchecked(0, 0, 0))
+        .epoch(if cc.genesis_epoch == 0 {
+            EpochNumberWithFraction::new_unchecked(0, 0, 0)
+        } else {
+            EpochNumberWithFraction::new(cc.genesis_epoch, 0, cc.epoch_len)
+        })
         .timestamp(1_000_000u64)
         .transaction(tx)
         .transactions(transactions)
         .build();
     let epoch_reward = capacity_bytes!(1_917_808);
     let duration_target = 8 * cc.epoch_len;
-    let genesis_epoch_ext = build_genesis_epoch_ext(epoch_reward, DIFF_TWO, cc.epoch_len, duration_target, (1, 40));
+    let mut genesis_epoch_ext = build_genesis_epoch_ext(epoch_reward, DIFF_TWO, cc.epoch_len, duration_target, (1, 40));
+    if cc.genesis_epoch != 0 {
+        // a history that starts at epoch `genesis_epoch`: the genesis block is the first block of
+        // that epoch; `get_block_epoch` reads the block ext / header of the "last block of the
+        // previous epoch" at the epoch's tail, which here is the genesis block itself
+        genesis_epoch_ext = genesis_epoch_ext
+            .into_builder()
+            .number(cc.genesis_epoch)
+            .last_block_hash_in_previous_epoch(genesis_block.hash())
+            .build();
+    }
     let mut b = ConsensusBuilder::new(genesis_block, genesis_epoch_ext)
+        .id(cc.chain.to_owned())
         .initial_primary_epoch_reward(epoch_reward)
         .epoch_duration_target(duration_target)
         .permanent_difficulty_in_dummy(true)
@@ -479,6 +532,9 @@ struct Case<'a> {
     builder: ChainBuilder,
     consensus: Consensus,
     cc: CaseCfg,
+    /// activation epoch of the hardfork-conditional rules, by consensus id (computed here from the
+    /// constants, not with `Consensus::rfc0044_active`)
+    act_epoch: u64,
     ids: Ids,
     cyc: u64,
     tip: Byte32,
@@ -877,7 +933,7 @@ fn pad_cellbase_witness(v: &BlockView, extra: usize) -> BlockView {
 fn pick_cfg(rng: &mut Rng, cyc: u64) -> CaseCfg {
     if rng.chance(1, 5) {
         // all consensus defaults (median 37, window 2..10, proposals limit 1500 …); epoch length stays short
-        return CaseCfg { epoch_len: rng.range(5, 9), window: (2, 10), median: 37, max_props: 1500, max_bytes: 597_000, max_cycles: 3_500_000_000, defaults: true };
+        return CaseCfg { epoch_len: rng.range(5, 9), window: (2, 10), median: 37, max_props: 1500, max_bytes: 597_000, max_cycles: 3_500_000_000, defaults: true, chain: "ckb_dev", genesis_epoch: 0 };
     }
     let close = rng.range(1, 3);
     let far = close + rng.range(1, 4);
@@ -889,12 +945,14 @@ fn pick_cfg(rng: &mut Rng, cyc: u64) -> CaseCfg {
         max_bytes: rng.range(3_000, 5_000),
         max_cycles: cyc * rng.range(2, 3),
         defaults: false,
+        chain: "ckb_dev",
+        genesis_epoch: 0,
     }
 }
 
 /// cycles of one always-success input (measured once on a throw-away node; script execution is an oracle)
 fn measure_cycles(base: &Path) -> u64 {
-    let cc = CaseCfg { epoch_len: 10, window: (1, 3), median: 3, max_props: 10, max_bytes: 100_000, max_cycles: 1_000_000_000, defaults: false };
+    let cc = CaseCfg { epoch_len: 10, window: (1, 3), median: 3, max_props: 10, max_bytes: 100_000, max_cycles: 1_000_000_000, defaults: false, chain: "ckb_dev", genesis_epoch: 0 };
     let consensus = consensus_for(&cc, 2);
     let ncfg = NodeCfg::default();
     let node = Node::start(&base.join("probe-node"), consensus.clone(), &ncfg);
@@ -926,13 +984,17 @@ fn pick_cfg_reorg(rng: &mut Rng, cyc: u64) -> CaseCfg {
         max_bytes: 20_000,
         max_cycles: cyc * 6,
         defaults: false,
+        chain: "ckb_dev",
+        genesis_epoch: 0,
     }
 }
 
-fn run_case(out: &mut Out, seed: u64, base: &Path, cyc: u64, steps: usize, reorg: bool) {
+fn run_case(out: &mut Out, seed: u64, base: &Path, cyc: u64, steps: usize, reorg: bool, regime: u64) {
     let mut rng = Rng::new(seed);
     let cc = if reorg { pick_cfg_reorg(&mut rng, cyc) } else { pick_cfg(&mut rng, cyc) };
-    out.begin_case(&if reorg { format!("seed={} reorg=1", seed) } else { format!("seed={}", seed) });
+    let cc = with_regime(cc, regime);
+    let tag = if regime == 0 { String::new() } else { format!(" regime={}", regime) };
+    out.begin_case(&if reorg { format!("seed={} reorg=1{}", seed, tag) } else { format!("seed={}{}", seed, tag) });
     let t_case = std::time::Instant::now();
     let consensus = consensus_for(&cc, if reorg { 40 } else { 24 });
     let ncfg = NodeCfg { with_pool: false, ..Default::default() };
@@ -956,6 +1018,7 @@ fn run_case(out: &mut Out, seed: u64, base: &Path, cyc: u64, steps: usize, reorg
         builder,
         consensus: consensus.clone(),
         cc: cc.clone(),
+        act_epoch: act_epoch_of(cc.chain),
         ids: Ids::default(),
         cyc,
         tip: consensus.genesis_hash(),
@@ -973,17 +1036,24 @@ fn run_case(out: &mut Out, seed: u64, base: &Path, cyc: u64, steps: usize, reorg
         derailed: false,
     };
     c.builder.max_branch_stores = 4;
+    // the consensus id goes to the model, which selects the rfc0044 activation epoch from the
+    // constants regenerated from the source and decides per block (parent's epoch) whether it is active
+    let chain = if regime == 0 { String::new() } else { format!(" chain={}", consensus.id) };
     if cc.defaults {
-        c.out.op("cfg", "ok");
+        c.out.op(&format!("cfg{}", chain), "ok");
     } else {
         c.out.op(
-            &format!("cfg median={} maxprops={} maxbytes={} maxcycles={} close={} far={}", cc.median, cc.max_props, cc.max_bytes, cc.max_cycles, cc.window.0, cc.window.1),
+            &format!("cfg median={} maxprops={} maxbytes={} maxcycles={} close={} far={}{}", cc.median, cc.max_props, cc.max_bytes, cc.max_cycles, cc.window.0, cc.window.1, chain),
             "ok",
         );
     }
     let g = consensus.genesis_block().clone();
     let gid = c.ids.block(&g.hash());
-    c.out.op(&format!("genesis id={} num=0 ts={} ep=0/0/0 tgt={} work={}", gid, g.timestamp(), g.compact_target(), u256_to_u64(&g.header().difficulty())), "ok");
+    let gep = g.epoch();
+    c.out.op(
+        &format!("genesis id={} num=0 ts={} ep={}/{}/{} tgt={} work={}", gid, g.timestamp(), gep.number(), gep.index(), gep.length(), g.compact_target(), u256_to_u64(&g.header().difficulty())),
+        "ok",
+    );
     c.described.insert(g.hash());
     if reorg {
         // warm-up history, fork tree (A -> B -> A'), ordinary steps on the chain that survived (every
@@ -1162,7 +1232,7 @@ fn step(c: &mut Case) {
     // expected epoch of the new block
     let new_epoch = {
         let e = ph.epoch();
-        if ph.number() == 0 { 0 } else if e.index() + 1 == e.length() { e.number() + 1 } else { e.number() }
+        if ph.number() == 0 { e.number() } else if e.index() + 1 == e.length() { e.number() + 1 } else { e.number() }
     };
     // uncles
     let n_unc = c.rng.below(3) as usize;
@@ -1170,6 +1240,21 @@ fn step(c: &mut Case) {
     spec.uncles = uncles.iter().map(|u| u.as_uncle()).collect();
     // boundary kinds decided before building, so that the builder's store follows the accepted block
     let mut bkind = c.rng.below(12);
+    // round 6: the activation boundary of the hardfork-conditional rules. The verifier asks
+    // `rfc0044_active(parent.epoch().number())`; `active` is the same question answered from the constants
+    let active = ph.epoch().number() >= c.act_epoch;
+    if c.cc.chain != "ckb_dev" {
+        if !active {
+            // before activation: two steps in three exercise the extension rules of this regime, the
+            // block that crosses the boundary (own epoch = activation epoch, parent's below it) always
+            if new_epoch >= c.act_epoch || c.rng.chance(2, 3) {
+                bkind = 20 + c.rng.below(4);
+            }
+        } else if ph.epoch().number() == c.act_epoch && (ph.epoch().index() <= 1 || c.rng.chance(1, 2)) {
+            // the first epoch in which the chain root is required
+            bkind = 25;
+        }
+    }
     let median = median_of_parent(c, &parent);
     // timestamps may legally go backwards (only the past median bounds them), but an epoch's last
     // block older than the previous epoch's last block makes `get_block_epoch` subtract with
@@ -1414,6 +1499,93 @@ fn boundary_valid(c: &mut Case, v: BlockView, ph: &BlockView, kind: u64, median:
             c.out.count(&format!("valid:cellbase-witness-hash-type={}", good));
             at
         }
+        20 | 21 | 22 | 23 => {
+            // ---- before the activation epoch (parent's epoch < rfc0044 epoch): no extension is the plain
+            // form, an extension of 1..=96 bytes of any content is accepted, the chain root is not
+            // looked at — and the header's extra_hash commits to uncles + extension all the same
+            let junk = |len: usize, seed: u64| -> Option<packed::Bytes> {
+                Some(Bytes::from((0..len).map(|i| (seed as u8).wrapping_mul(31).wrapping_add(i as u8)).collect::<Vec<u8>>()).pack())
+            };
+            let salt = c.next_salt();
+            let (at, name): (BlockView, &'static str) = match kind {
+                20 => (v.as_advanced_builder().extension(None).build(), "pre:no-extension"),
+                21 => (v.as_advanced_builder().extension(junk(1 + (salt % 31) as usize, salt)).build(), "pre:ext-1..31-bytes"),
+                22 => (v.as_advanced_builder().extension(junk(32, salt)).build(), "pre:ext-32-bytes-not-the-root"),
+                _ => (v.clone(), "pre:as-built"),
+            };
+            let mut bads: Vec<(BlockView, &'static str)> = vec![];
+            bads.push((edit_raw(&at, |r| r.extra_hash(h256!("0x5a").pack())), "pre:extra-hash"));
+            if at.extension().is_some() {
+                // the header commits to the uncles only (another timestamp: with the same one it would
+                // be the header of the extension-less block — two bodies under one hash)
+                let uh = at.calc_uncles_hash();
+                let other = at.as_advanced_builder().timestamp(at.timestamp() + 2).build();
+                bads.push((edit_raw(&other, |r| r.extra_hash(uh)), "pre:extra-hash-omits-extension"));
+            }
+            {
+                // another block (timestamp + 1) whose body carries one more uncle than its header commits to
+                let cand = valid_uncles(c, child_epoch(ph), v.number(), 2).into_iter().find(|u| !at.uncles().hashes().into_iter().any(|h| h == u.hash()));
+                if let Some(u) = cand {
+                    if at.uncles().hashes().len() < c.consensus.max_uncles_num() {
+                        let committed = at.extra_hash();
+                        let mut us: Vec<UncleBlockView> = at.uncles().into_iter().collect();
+                        us.push(u.as_uncle());
+                        let more = at.as_advanced_builder().timestamp(at.timestamp() + 1).set_uncles(us).build();
+                        bads.push((edit_raw(&more, |r| r.extra_hash(committed)), "pre:extra-hash-omits-uncle"));
+                    }
+                }
+            }
+            match kind {
+                21 => bads.push((v.as_advanced_builder().extension(Some(Bytes::new().pack())).build(), "pre:ext-empty")),
+                22 => bads.push((v.as_advanced_builder().extension(junk(97, salt)).build(), "pre:ext-97")),
+                _ => {}
+            }
+            c.builder.blocks.insert(at.hash(), at.clone());
+            // never a second body under a hash that is already in play
+            bads.retain(|b| b.0.hash() != at.hash() && b.0.hash() != v.hash() && !c.described.contains(&b.0.hash()));
+            {
+                let mut all: Vec<&BlockView> = bads.iter().map(|b| &b.0).collect();
+                all.push(&at);
+                c.describe_all(&parent, &all);
+            }
+            for (b, rule) in &bads {
+                c.bad.insert(b.hash());
+                c.submit(b, now + 3, Intent::Invalid, rule);
+            }
+            c.submit(&at, now + 3, Intent::Valid, name);
+            if child_epoch(ph) >= c.act_epoch {
+                c.out.count("valid:crossing-block(parent-epoch-below-activation,own-epoch-at)");
+                c.rules_hit.insert("activation-crossing:Valid".into());
+            }
+            at
+        }
+        25 => {
+            // ---- the first epoch in which rfc0044 is active (parent's epoch = activation epoch): what
+            // was accepted one epoch earlier is refused now
+            let mut bads: Vec<(BlockView, &'static str)> = vec![
+                (v.as_advanced_builder().extension(None).build(), "act:no-extension"),
+                (v.as_advanced_builder().extension(ext_of_len(&v, 31)).build(), "act:ext-31"),
+                (edit_raw(&v, |r| r.extra_hash(h256!("0x5b").pack())), "act:extra-hash"),
+            ];
+            if let Some(e) = v.extension() {
+                let mut bytes = e.raw_data().to_vec();
+                let i = c.rng.below(32) as usize;
+                bytes[i] ^= 1 << c.rng.below(8);
+                bads.push((v.as_advanced_builder().extension(Some(Bytes::from(bytes).pack())).build(), "act:ext-root-bit"));
+            }
+            bads.retain(|b| b.0.hash() != v.hash() && !c.described.contains(&b.0.hash()));
+            {
+                let all: Vec<&BlockView> = bads.iter().map(|b| &b.0).collect();
+                c.describe_all(&parent, &all);
+            }
+            for (b, rule) in &bads {
+                c.bad.insert(b.hash());
+                c.submit(b, now, Intent::Invalid, rule);
+            }
+            c.submit(&v, now, Intent::Valid, "act:chain-root-extension");
+            c.rules_hit.insert("activation-first-epoch:Valid".into());
+            v
+        }
         4 => {
             // the same block with a sixth molecule table field after the extension: not covered by
             // any hash and dropped by the store round trip, so it is the same valid block
@@ -1458,7 +1630,7 @@ fn make_mutant(
         b[9] = 0xee;
         ProposalShortId::new(b)
     };
-    let kind = c.rng.below(60);
+    let kind = c.rng.below(64);
     let r: (BlockView, &'static str) = match kind {
         // ---- header stage
         0 => (v.as_advanced_builder().number(h + 1).build(), "number+1"),
@@ -1645,10 +1817,14 @@ fn make_mutant(
         ),
         41 => {
             let k = c.rng.below(4);
+            // before the activation epoch a missing / short extension or another root is no violation
+            let active = ph.epoch().number() >= c.act_epoch;
             match k {
-                0 => (v.as_advanced_builder().extension(None).build(), "ext-none"),
+                0 if active => (v.as_advanced_builder().extension(None).build(), "ext-none"),
                 1 => (v.as_advanced_builder().extension(Some(Bytes::new().pack())).build(), "ext-empty"),
-                2 => (v.as_advanced_builder().extension(ext_of_len(v, 31)).build(), "ext-31"),
+                2 if active => (v.as_advanced_builder().extension(ext_of_len(v, 31)).build(), "ext-31"),
+                0 | 2 => (v.as_advanced_builder().extension(ext_of_len(v, 97)).build(), "ext-97"),
+                _ if !active => return None,
                 _ => {
                     let mut bytes = v.extension()?.raw_data().to_vec();
                     let i = c.rng.below(32) as usize;
@@ -1753,6 +1929,27 @@ fn make_mutant(
                 }),
                 if ht % 2 == 0 { "cellbase-lock-hash-type-known-not-enabled" } else { "cellbase-lock-hash-type-unknown" },
             )
+        }
+        // ---- round 6
+        60 | 61 if h > c.consensus.finalization_delay_length() => (
+            // the finalized reward is withheld: a cellbase without output (and without data), DAO field
+            // recomputed for it — the shape that is REQUIRED up to the finalization delay
+            fix_dao(c, with_cellbase(v, |cb| cb.set_outputs(vec![]).set_outputs_data(vec![])))?,
+            "reward-withheld(no-output)",
+        ),
+        62 => {
+            // the header commits to the uncles only, not to the extension
+            v.extension()?;
+            let uh = v.calc_uncles_hash();
+            // another timestamp: with the same one this is the header of `v` without extension
+            let other = v.as_advanced_builder().timestamp(v.timestamp() + 2).build();
+            (edit_raw(&other, |r| r.extra_hash(uh)), "extra-hash-omits-extension")
+        }
+        63 => {
+            // an uncle of the block's own height (a sibling: child of the same parent), crafted — no
+            // stored sibling needed
+            let u = craft_uncle(v, &ph.hash(), h, salt);
+            (v.as_advanced_builder().set_uncles(vec![u]).build(), "uncle-number=block(crafted-sibling)")
         }
         _ => return None,
     };
@@ -1947,7 +2144,7 @@ fn resync(c: &mut Case, fork_height: u64) {
 /// epoch number of a child of `parent`
 fn child_epoch(parent: &BlockView) -> u64 {
     let e = parent.epoch();
-    if parent.number() == 0 { 0 } else if e.index() + 1 == e.length() { e.number() + 1 } else { e.number() }
+    if parent.number() == 0 { e.number() } else if e.index() + 1 == e.length() { e.number() + 1 } else { e.number() }
 }
 
 fn with_header_dep(tx: &TransactionView, h: &Byte32) -> TransactionView {
@@ -2301,11 +2498,14 @@ fn side_branch(c: &mut Case) {
     let kind = c.rng.below(4);
     let fin = c.consensus.finalization_delay_length();
     let fp_n = tip_n - back;
+    // the chain-root rules bind only from the activation epoch on (parent's epoch)
+    let fp_active = c.builder.block(&fork_parent).epoch().number() >= c.act_epoch;
     let (tweak, rule) = match kind {
         0 if fp_n + 1 > fin => (Tweak::CellbaseCapacity(1), "side:reward+1"),
         1 => (Tweak::Dao, "side:dao"),
-        2 => (Tweak::Extension, "side:chain-root"),
-        _ => (Tweak::NoExtension, "side:no-extension"),
+        2 if fp_active => (Tweak::Extension, "side:chain-root"),
+        3 if fp_active => (Tweak::NoExtension, "side:no-extension"),
+        _ => (Tweak::Dao, "side:dao"),
     };
     let ts = c.max_ts;
     let s1 = c.builder.build(&fork_parent, &BlockSpec { salt: s, tweak, timestamp: Some(ts + 1), ..Default::default() });
@@ -2364,7 +2564,7 @@ fn resubmit(c: &mut Case) {
 /// body under an already stored header hash — counted in the histogram, never an oracle failure
 fn run_scenario(out: &mut Out, name: &str, base: &Path) {
     out.begin_case(&format!("scenario={}", name));
-    let cc = CaseCfg { epoch_len: 10, window: (2, 10), median: 37, max_props: 1500, max_bytes: 597_000, max_cycles: 3_500_000_000, defaults: true };
+    let cc = CaseCfg { epoch_len: 10, window: (2, 10), median: 37, max_props: 1500, max_bytes: 597_000, max_cycles: 3_500_000_000, defaults: true, chain: "ckb_dev", genesis_epoch: 0 };
     let consensus = consensus_for(&cc, 2);
     let dir = base.join(format!("scenario-{}", name));
     let _ = std::fs::remove_dir_all(&dir);
@@ -2455,7 +2655,8 @@ pub fn run(opts: &Opts) {
                     continue;
                 }
                 if let Some(s) = l.split_whitespace().find_map(|t| t.strip_prefix("seed=")) {
-                    seeds.push((s.parse::<u64>().expect("seed"), l.split_whitespace().any(|t| t == "reorg=1")));
+                    let regime = l.split_whitespace().find_map(|t| t.strip_prefix("regime=")).map(|r| r.parse::<u64>().expect("regime")).unwrap_or(0);
+                    seeds.push((s.parse::<u64>().expect("seed"), l.split_whitespace().any(|t| t == "reorg=1"), regime));
                 }
             }
         }
@@ -2463,8 +2664,8 @@ pub fn run(opts: &Opts) {
             eprintln!("replay file has no `case <n> seed=<s>` / `scenario=<name>` line");
             std::process::exit(2);
         }
-        for (s, reorg) in seeds {
-            run_case(&mut out, s, &base, cyc, 30, reorg);
+        for (s, reorg, regime) in seeds {
+            run_case(&mut out, s, &base, cyc, 30, reorg, regime);
         }
     } else {
         // in-process-only observations, counted in the histogram (never an oracle failure)
@@ -2474,11 +2675,18 @@ pub fn run(opts: &Opts) {
         let cases = if opts.thorough() { 200 * opts.scale } else { 14 * opts.scale };
         // fork trees first (context-dependence across reorgs), then the long single-chain histories
         let reorg_cases = if opts.thorough() { 120 * opts.scale } else { 12 * opts.scale };
+        // round 6: activation regimes. Regime 0 = rfc0044 active from epoch 0 (any non-public consensus
+        // id), 1 = a public-chain id far below its activation epoch (never active within the case),
+        // 2 / 3 = test-net / main-net id with a history that starts one or two epochs below the
+        // activation epoch and crosses it. Two fork-tree cases in six and three single-chain cases
+        // in seven run in a non-zero regime.
         for i in 0..reorg_cases {
-            run_case(&mut out, opts.seed.wrapping_mul(1_000_003).wrapping_add(500_000 + i), &base, cyc, 30, true);
+            let regime = match i % 6 { 2 => 2, 5 => 1, _ => 0 };
+            run_case(&mut out, opts.seed.wrapping_mul(1_000_003).wrapping_add(500_000 + i), &base, cyc, 30, true, regime);
         }
         for i in 0..cases {
-            run_case(&mut out, opts.seed.wrapping_mul(1_000_003).wrapping_add(i), &base, cyc, 30, false);
+            let regime = match i % 7 { 1 => 2, 3 => 1, 5 => 3, _ => 0 };
+            run_case(&mut out, opts.seed.wrapping_mul(1_000_003).wrapping_add(i), &base, cyc, 30, false, regime);
         }
     }
     let _ = std::fs::remove_dir_all(&base);
